@@ -1332,6 +1332,11 @@ func (s *Netceptor) SendMessageWithHopsToLive(fromService string, toNode string,
 	if strings.EqualFold(toNode, "localhost") {
 		toNode = s.nodeID
 	}
+	if toNode == s.nodeID {
+		// A locally delivered message is handed to the reader as is, so it must not alias the caller's
+		// buffer: net.PacketConn.WriteTo may not retain p, and callers reuse it as soon as WriteTo returns.
+		data = append([]byte(nil), data...)
+	}
 	md := &MessageData{
 		FromNode:    s.nodeID,
 		FromService: fromService,
